@@ -7,6 +7,7 @@ from props import ringlib as R
 
 ID = 'C06'
 PROP_FILE = 'Props/C06.v'
+EXTRA_PROP_FILES = ['Props/C06Src.v']     # K1 source tie (tools/props/src_translate.py), see docs/reports/SRC.md
 EVAL_FILES = ['Oracle/C06Oracle.v', 'Model/RingThreads.v', 'Oracle/C06ProxyOracle.v']
 CRATES = ['c06']
 MODES = ['debug', 'release']
